@@ -185,4 +185,39 @@ theorem col_deduplicate [Add α] (M : Csc α) (j : Nat) (hj : j < M.n) :
   rw [col_ofCols _ _ _ j (by simpa using hj)]
   simp
 
+
+/-! ### canonical columns are fixed points -/
+
+theorem sortByRow_of_sorted (c : List (Nat × α)) (h : (c.map (·.1)).Pairwise (· < ·)) :
+    sortByRow c = c := by
+  induction c with
+  | nil => rfl
+  | cons e t ih =>
+    simp only [List.map_cons, List.pairwise_cons] at h
+    show insertByRow e (sortByRow t) = e :: t
+    rw [ih h.2]
+    cases t with
+    | nil => rfl
+    | cons x xs =>
+      have : e.1 ≤ x.1 := Nat.le_of_lt (h.1 x.1 (by simp))
+      simp [insertByRow, this]
+
+theorem dedupeGo_of_sorted [Add α] (r : Nat) (acc : α) (rest : List (Nat × α))
+    (h : (r :: rest.map (·.1)).Pairwise (· < ·)) : dedupeGo r acc rest = (r, acc) :: rest := by
+  induction rest generalizing r acc with
+  | nil => rfl
+  | cons e t ih =>
+    simp only [List.map_cons, List.pairwise_cons, List.mem_cons, forall_eq_or_imp] at h
+    obtain ⟨⟨hre, _⟩, het, ht⟩ := h
+    have hne : (e.1 == r) = false := by simp; omega
+    unfold dedupeGo
+    simp only [hne, Bool.false_eq_true, ↓reduceIte]
+    rw [ih e.1 e.2 (by simp only [List.pairwise_cons]; exact ⟨het, ht⟩)]
+
+theorem dedupeRows_of_sorted [Add α] (c : List (Nat × α)) (h : (c.map (·.1)).Pairwise (· < ·)) :
+    dedupeRows c = c := by
+  cases c with
+  | nil => rfl
+  | cons e t => exact dedupeGo_of_sorted e.1 e.2 t (by simpa using h)
+
 end Clarabel.Csc
